@@ -144,12 +144,6 @@ pub fn features(p: &Prog) -> Vec<&'static str> {
     v
 }
 
-pub struct FnRun {
-    pub model: Outcome,
-    pub vm: RunOut,
-    pub model_ffi: Vec<(usize, i64)>,
-}
-
 /// Compares one VM run of a function with the model's outcome.
 pub fn compare(prog: &Prog, fname: &str, model: &Outcome, model_ffi: &[(usize, i64)], vm: &RunOut, info: &mut CaseInfo) -> CheckResult {
     match (&vm.end, model) {
